@@ -64,6 +64,8 @@ def build_source(t):
     src = d.text() + f"""
 interface Ret:
     def get() -> {T}: view
+    def getx(x: {T}) -> {T}: view
+    def getn(x: {T}) -> {T}: nonpayable
 
 s: {T}
 
@@ -92,6 +94,24 @@ def dec(b: Bytes[{n}]) -> {T}:
 @external
 def viaret(a: address) -> {T}:
     return staticcall Ret(a).get()
+
+# the outgoing argument x stays in the call buffer: short returndata must NOT be completed from it
+@external
+def viaret_x(a: address, x: {T}) -> {T}:
+    return staticcall Ret(a).getx(x)
+
+@external
+def viaret_dx(a: address, x: {T}) -> {T}:
+    return staticcall Ret(a).getx(x, default_return_value=x)
+
+@external
+def viaret_nx(a: address, x: {T}) -> {T}:
+    return extcall Ret(a).getn(x, skip_contract_check=True)
+
+@external
+def rawdec(a: address) -> {T}:
+    b: Bytes[{n}] = raw_call(a, b"", max_outsize={n}, is_static_call=True)
+    return abi_decode(b, {T})
 """
     return src, n
 
@@ -134,6 +154,7 @@ def run_job(job):
     kind in call | mem | ctor | ret.  Returns per input (ok, out)."""
     src, cfg, bases, inputs = job[:4]
     kwsel = job[4] if len(job) > 4 else None
+    tt, xvs = (job[5], job[6]) if len(job) > 6 else (None, None)
     from .configs import compile_src
     from .evm import Chain
     res = {"cfg": cfg.name, "error": None, "obs": []}
@@ -165,6 +186,14 @@ def run_job(job):
                     r = ch.call(main, mids["dec"] + enc_bytes_arg(data))
                 elif kind.startswith("kw"):
                     r = ch.call(main, kwsel[int(kind[2])] + data)
+                elif kind in ("retx", "retdx", "retnx"):
+                    cal = ch.set_code(None, returner_runtime(data))
+                    fn = {"retx": "viaret_x", "retdx": "viaret_dx", "retnx": "viaret_nx"}[kind]
+                    args = A.py_enc(("tuple", (("address",), tt)), [int(cal, 16), xvs[k]], 0)
+                    r = ch.call(main, mids[fn] + args)
+                elif kind == "rawdec":
+                    cal = ch.set_code(None, returner_runtime(data))
+                    r = ch.call(main, mids["rawdec"] + int(cal, 16).to_bytes(32, "big"))
                 elif kind == "retd":
                     cal = ch.set_code(None, returner_runtime(data))
                     r = ch.call(main, mids["viaret_d"] + int(cal, 16).to_bytes(32, "big"))
